@@ -86,7 +86,10 @@ Eigen::Vector2d LambertConverter::toLambert(const WGS84Coordinates & wgs84Coordi
 //-----------------------------------------------------------------------------
 WGS84Coordinates LambertConverter::toWGS84(const Eigen::Vector2d & position) const
 {
-  double rho = std::sqrt(std::pow(position.x() - xs_, 2) + std::pow(position.y() - ys_, 2));
+  // signed polar radius, as in toLambert where it is c_ * exp(-n_ * isolat): c_ (like n_) is
+  // negative for a southern-hemisphere cone and rho / c_ must stay positive for the logarithm
+  double rho = std::copysign(
+    std::sqrt(std::pow(position.x() - xs_, 2) + std::pow(position.y() - ys_, 2)), c_);
   double theta = std::atan((position.x() - xs_) / (ys_ - position.y()));
   return{computeLatitude(-std::log(rho / c_) / n_, e_), longitude0_ + theta / n_};
 }
